@@ -39,112 +39,156 @@ Qed.
 
 (* ---- the Go operator semantics extends the property's ---- *)
 
-Lemma apply_go_extends o a b v : spec_apply o a b = Some v -> apply_go o a b = Some v.
+Lemma spec_pair_compare orc a b p : spec_pair orc a b = Some p -> compare_types orc a b = Some p.
 Proof.
-  destruct a as [x|x|s|], b as [y|y|t|]; cbn [spec_apply]; try discriminate;
-    destruct o; try discriminate; intro H; inversion H; subst; clear H;
-      cbn [apply_go arith order_values equal_values compare_types option_map]; try reflexivity.
+  destruct a as [x|x|s|], b as [y|y|t|]; cbn [spec_pair]; try discriminate;
+    try (intro H; exact H).
 Qed.
 
-Lemma lift_ap_extends o a b v :
-  lift_ap spec_apply o a b = Some v -> lift_ap apply_go o a b = Some v.
+Lemma apply_go_extends orc o a b v : spec_apply orc o a b = Some v -> apply_go orc o a b = Some v.
+Proof.
+  destruct o; cbn [spec_apply apply_go]; try discriminate;
+    try (destruct a, b; cbn [spec_arith arith]; (discriminate || (intro H; exact H)));
+    unfold spec_cmp, spec_eq, order_values, equal_values;
+    destruct (spec_pair orc a b) as [p|] eqn:Ep; try discriminate;
+    rewrite (spec_pair_compare orc a b p Ep);
+    destruct p; try discriminate; intro H; inversion H; subst; reflexivity.
+Qed.
+
+Lemma lift_ap_extends orc o a b v :
+  lift_ap (spec_apply orc) o a b = Some v -> lift_ap (apply_go orc) o a b = Some v.
 Proof. destruct a, b; cbn [lift_ap]; try discriminate. apply apply_go_extends. Qed.
 
-Lemma eval_tree_extends t : forall v,
-  eval_tree spec_apply t = Some v -> eval_tree apply_go t = Some v.
+Lemma eval_tree_extends orc t : forall v,
+  eval_tree (spec_apply orc) t = Some v -> eval_tree (apply_go orc) t = Some v.
 Proof.
   induction t as [w|o l IHl r IHr|t IH]; intros v H; cbn [eval_tree] in *.
   - exact H.
-  - destruct (eval_tree spec_apply l) as [a|] eqn:El; [|discriminate].
-    destruct (eval_tree spec_apply r) as [b|] eqn:Er; [|destruct a; discriminate].
+  - destruct (eval_tree (spec_apply orc) l) as [a|] eqn:El; [|discriminate].
+    destruct (eval_tree (spec_apply orc) r) as [b|] eqn:Er; [|destruct a; discriminate].
     rewrite (IHl a eq_refl), (IHr b eq_refl). apply lift_ap_extends. exact H.
   - unfold group_val in *.
-    destruct (eval_tree spec_apply t) as [w|] eqn:E; [|discriminate].
+    destruct (eval_tree (spec_apply orc) t) as [w|] eqn:E; [|discriminate].
     rewrite (IH w eq_refl). exact H.
 Qed.
 
-Lemma eval_top_extends t v :
-  eval_top spec_apply t = Some v -> eval_top apply_go t = Some v.
+Lemma eval_top_extends orc t v :
+  eval_top (spec_apply orc) t = Some v -> eval_top (apply_go orc) t = Some v.
 Proof.
   unfold eval_top, group_val. intro H.
-  destruct (eval_tree spec_apply t) as [w|] eqn:E; [|discriminate].
-  rewrite (eval_tree_extends t w E). exact H.
+  destruct (eval_tree (spec_apply orc) t) as [w|] eqn:E; [|discriminate].
+  rewrite (eval_tree_extends orc t w E). exact H.
 Qed.
 
 (* HEADLINE for C06: whenever the property says what a token list evaluates to
-   (textbook precedence, IEEE arithmetic, comparisons), the model of the Go code
-   returns exactly that value — every length, every nesting depth. *)
-Theorem model_meets_reference ts v :
-  reference ts = Some v -> eval_expr ts = Ok v.
+   (textbook precedence, IEEE arithmetic, comparisons incl. the documented
+   number/string/boolean conversions, with ParseFloat / FloatToString as observed
+   tables), the model of the Go code returns exactly that value. *)
+Theorem model_meets_reference orc ts v :
+  reference orc ts = Some v -> eval_expr orc ts = Ok v.
 Proof.
   unfold reference. destruct (parse_expr ts) as [t|] eqn:Ep; [|discriminate].
-  intro H. rewrite (eval_expr_eq_tree ts t Ep). rewrite (eval_top_extends t v H). reflexivity.
+  intro H. rewrite (eval_expr_eq_tree orc ts t Ep). rewrite (eval_top_extends orc t v H). reflexivity.
 Qed.
 
-Theorem model_meets_spec ts :
-  spec_ok {| c_toks := ts; c_obs := obs_of (eval_expr ts) |} = true.
+Theorem model_meets_spec orc ts :
+  spec_ok {| c_toks := ts; c_orc := orc; c_obs := obs_of (eval_expr orc ts) |} = true.
 Proof.
-  unfold spec_ok, spec_obs. cbn [c_toks c_obs].
-  destruct (reference ts) as [v|] eqn:E; [|reflexivity].
-  rewrite (model_meets_reference ts v E). apply obs_eqb_refl.
+  unfold spec_ok, spec_obs. cbn [c_toks c_obs c_orc].
+  destruct (reference orc ts) as [v|] eqn:E; [|reflexivity].
+  rewrite (model_meets_reference orc ts v E). apply obs_eqb_refl.
 Qed.
 
 (* the machine never runs out of fuel on a well-formed expression *)
-Theorem fuel_sufficient ts tr : parse_expr ts = Some tr -> eval_expr ts <> OutOfFuel.
+Theorem fuel_sufficient orc ts tr : parse_expr ts = Some tr -> eval_expr orc ts <> OutOfFuel.
 Proof.
-  intros Hp H. rewrite (eval_expr_eq_tree ts tr Hp) in H.
-  destruct (eval_top apply_go tr); discriminate.
+  intros Hp H. rewrite (eval_expr_eq_tree orc ts tr Hp) in H.
+  destruct (eval_top (apply_go orc) tr); discriminate.
 Qed.
+
+(* mixed comparisons, in the property's words *)
+Lemma reference_binop orc o a b :
+  reference orc [PV a; PO o; PV b] = spec_apply orc o a b.
+Proof.
+  unfold reference.
+  assert (Hp : parse_expr [PV a; PO o; PV b] = Some (TNode o (TLeaf a) (TLeaf b)))
+    by (destruct o; reflexivity).
+  rewrite Hp. unfold eval_top. cbn [eval_tree lift_ap group_val is_single].
+  destruct (spec_apply orc o a b) as [[]|]; reflexivity.
+Qed.
+
+Corollary num_vs_numeric_string orc x s y :
+  lookup_parse (or_parse orc) s = Some (Some y) ->
+  eval_expr orc [PV (VNum x); PO Eq; PV (VStr s)] = Ok (VBool (PrimFloat.eqb x y)) /\
+  eval_expr orc [PV (VStr s); PO Lt; PV (VNum x)] = Ok (VBool (PrimFloat.ltb y x)).
+Proof.
+  intro H. split; apply model_meets_reference; rewrite reference_binop;
+    cbn [spec_apply spec_pair]; rewrite H; reflexivity.
+Qed.
+
+Corollary num_vs_other_string orc x s t :
+  lookup_parse (or_parse orc) s = Some None -> lookup_fmt (or_fmt orc) x = Some t ->
+  eval_expr orc [PV (VNum x); PO Eq; PV (VStr s)] = Ok (VBool (bytes_eqb t s)) /\
+  eval_expr orc [PV (VNum x); PO Lt; PV (VStr s)] = Ok (VBool (bytes_ltb t s)).
+Proof.
+  intros H1 H2. split; apply model_meets_reference; rewrite reference_binop;
+    cbn [spec_apply spec_pair]; rewrite H1, H2; reflexivity.
+Qed.
+
+Corollary num_vs_bool orc x b :
+  eval_expr orc [PV (VNum x); PO Eq; PV (VBool b)] =
+  Ok (VBool (PrimFloat.eqb x (if b then 1 else 0)%float)).
+Proof. apply model_meets_reference. rewrite reference_binop. reflexivity. Qed.
 
 (* ---- corollaries in the property's words (a b c: any numbers) ---- *)
 
 Notation num x := (PV (VNum x)).
 Open Scope float_scope.
 
-Corollary mul_before_add a b c :
-  eval_expr [num a; PO Add; num b; PO Mul; num c] = Ok (VNum (a + b * c)) /\
-  eval_expr [num a; PO Mul; num b; PO Add; num c] = Ok (VNum (a * b + c)).
+Corollary mul_before_add orc a b c :
+  eval_expr orc [num a; PO Add; num b; PO Mul; num c] = Ok (VNum (a + b * c)) /\
+  eval_expr orc [num a; PO Mul; num b; PO Add; num c] = Ok (VNum (a * b + c)).
 Proof. split; apply model_meets_reference; reflexivity. Qed.
 
-Corollary sub_left_assoc a b c :
-  eval_expr [num a; PO Sub; num b; PO Sub; num c] = Ok (VNum (a - b - c)).
+Corollary sub_left_assoc orc a b c :
+  eval_expr orc [num a; PO Sub; num b; PO Sub; num c] = Ok (VNum (a - b - c)).
 Proof. apply model_meets_reference; reflexivity. Qed.
 
-Corollary div_left_assoc a b c :
-  eval_expr [num a; PO Div; num b; PO Div; num c] = Ok (VNum (a / b / c)) /\
-  eval_expr [num a; PO Div; num b; PO Mul; num c] = Ok (VNum (a / b * c)).
+Corollary div_left_assoc orc a b c :
+  eval_expr orc [num a; PO Div; num b; PO Div; num c] = Ok (VNum (a / b / c)) /\
+  eval_expr orc [num a; PO Div; num b; PO Mul; num c] = Ok (VNum (a / b * c)).
 Proof. split; apply model_meets_reference; reflexivity. Qed.
 
-Corollary add_before_compare a b c d :
-  eval_expr [num a; PO Add; num b; PO Lt; num c; PO Mul; num d] = Ok (VBool (a + b <? c * d)).
+Corollary add_before_compare orc a b c d :
+  eval_expr orc [num a; PO Add; num b; PO Lt; num c; PO Mul; num d] = Ok (VBool (a + b <? c * d)).
 Proof. apply model_meets_reference; reflexivity. Qed.
 
-Corollary compare_before_equal a b c d :
-  eval_expr [num a; PO Lt; num b; PO Eq; num c; PO Ge; num d] =
+Corollary compare_before_equal orc a b c d :
+  eval_expr orc [num a; PO Lt; num b; PO Eq; num c; PO Ge; num d] =
   Ok (VBool (Bool.eqb (a <? b) (d <=? c))).
 Proof. apply model_meets_reference; reflexivity. Qed.
 
-Corollary parens_override a b c :
-  eval_expr [PP [num a; PO Add; num b]; PO Mul; num c] = Ok (VNum ((a + b) * c)).
+Corollary parens_override orc a b c :
+  eval_expr orc [PP [num a; PO Add; num b]; PO Mul; num c] = Ok (VNum ((a + b) * c)).
 Proof. apply model_meets_reference; reflexivity. Qed.
 
 (* comparisons yield booleans *)
-Corollary cmp_yields_bool o a b :
+Corollary cmp_yields_bool orc o a b :
   In o [Gt; Ge; Lt; Le; Eq; Ne] ->
-  exists r, eval_expr [num a; PO o; num b] = Ok (VBool r).
+  exists r, eval_expr orc [num a; PO o; num b] = Ok (VBool r).
 Proof.
   intro H. cbn in H.
   destruct H as [<-|[<-|[<-|[<-|[<-|[<-|[]]]]]]]; eexists; apply model_meets_reference; reflexivity.
 Qed.
 
 (* equal numbers compare equal however they are written: a literal is its float64 *)
-Corollary num_eq_by_value a b :
-  eval_expr [num a; PO Eq; num b] = Ok (VBool (a =? b)).
+Corollary num_eq_by_value orc a b :
+  eval_expr orc [num a; PO Eq; num b] = Ok (VBool (a =? b)).
 Proof. apply model_meets_reference; reflexivity. Qed.
 
 (* strings compare in byte order *)
-Corollary str_lt_is_bytewise s t :
-  eval_expr [PV (VStr s); PO Lt; PV (VStr t)] = Ok (VBool (bytes_ltb s t)).
+Corollary str_lt_is_bytewise orc s t :
+  eval_expr orc [PV (VStr s); PO Lt; PV (VStr t)] = Ok (VBool (bytes_ltb s t)).
 Proof. apply model_meets_reference; reflexivity. Qed.
 
 Lemma bytes_ltb_spec : forall s t,
